@@ -273,6 +273,15 @@ package getty
 //@   ensures released: !haskey(syncmap(g, "allSessions"), session)
 //@   ensures others-unchanged: k != session ==> haskey(syncmap(g, "allSessions"), k) == old(haskey(syncmap(g, "allSessions"), k))
 
+// every session that opens - the first one to an address as well as a re-established one - is registered
+// and gets its announcement started (the announcement itself is the literal OnOpen$1 below)
+//@ func (*gettyClientHandler).OnOpen
+//@   prop C19
+//@   requires sessionManager != nil && session != nil
+//@   modifies heap.all, ghost.all
+//@   ensures registered-and-announced: result == nil && haskey(syncmap(sessionManager, "allSessions"), session) && spawned("OnOpen$1")
+//@   may_panic
+
 // What a new session announces (C19): the work started by OnOpen runs in a goroutine, verified here as
 // the function literal OnOpen$1. has_rm_resources is an unconstrained ghost flag standing for "the
 // client has registered at least one resource with a resource manager".
